@@ -107,18 +107,34 @@ def analyse_build(ctx, F, crate, builder_adt, end_adt_path, end_kind, header_che
     return dict(inst=inst, pushes=[], per_field=per_field)
 
 
-def _view_shape(v):
+def _ok_call(x):
+    """x is the success value of a fallible call however it is taken out: `call.unwrap()` / `.expect(..)`, or the Ok payload
+    reached through a `match` whose other arm diverges -> the call term, else None"""
+    if x[0] in ("unwrap", "expect") and x[1][0] == "call":
+        return x[1]
+    if x[0] == "fld" and x[2] == 0 and x[1][0] == "dc" and x[1][2] == 0 and x[1][1][0] == "call":
+        return x[1][1]
+    if x[0] == "try_ok" and x[1][0] == "call":
+        return x[1]
+    return None
+
+
+def _view_call(v):
     if v[0] == "deref":
         v = v[1]          # `*tag.as_bytes()` (Deref of BytesRef) is the same slice as `.as_ref()`: both return the field
-    return v[0] == "fld" and v[2] == 0 and v[1][0] == "unwrap" and v[1][1][0] == "call" and "BytesRef" in str(v[1][1][1]) and "try_from" in str(v[1][1][1]) \
-        and v[1][1][2][0][0] == "rawslice" and v[1][1][2][0][2][0] == "sizeofval"
+    if not (v[0] == "fld" and v[2] == 0):
+        return None
+    return _ok_call(v[1])
+
+
+def _view_shape(v):
+    c = _view_call(v)
+    return c is not None and "BytesRef" in str(c[1]) and "try_from" in str(c[1]) and c[2][0][0] == "rawslice" and c[2][0][2][0] == "sizeofval"
 
 
 def _view_ptr(v):
     """(pointer the view starts at, the value whose size_of_val is its length): both must be the slot's tag"""
-    if v[0] == "deref":
-        v = v[1]
-    rs = v[1][1][2][0]
+    rs = _view_call(v)[2][0]
     return (rs[1], rs[2][1])
 
 
